@@ -317,11 +317,11 @@ def _merge_database_dicts(*database_dicts):
         return database_dicts[0]
 
     # Copy to prevent writes to the original dict.
-    # A weak copy is sufficient since we only modify two top levels.
-    result = {
-        k1: v1.copy()
-        for k1, v1 in database_dicts[0].items()
-    }
+    # A weak copy is sufficient since we only modify the two sections
+    # "datasets" and "alias" (the latter is optional in every part).
+    result = dict(database_dicts[0])
+    result['datasets'] = dict(result['datasets'])
+    result['alias'] = dict(result.get('alias', {}))
 
     for database_dict in database_dicts[1:]:
         assert not set(database_dict.keys()) - {'datasets', 'alias'}, (
